@@ -285,12 +285,38 @@ class NotAnAgent:
     """stands for any type that is not an Agent subclass"""
 
 
+class _Backed:
+    def __init__(self, name):
+        self.key = "_backed_" + name
+
+    def __get__(self, obj, owner):
+        if obj is None:
+            return self
+        try:
+            return obj.__dict__[self.key]
+        except KeyError:
+            raise AttributeError(self.key) from None
+
+    def __set__(self, obj, value):
+        obj.__dict__[self.key] = value
+
+    def __delete__(self, obj):
+        try:
+            del obj.__dict__[self.key]
+        except KeyError:
+            raise AttributeError(self.key) from None
+
+
 class World:
     """a real mesa Model + DataCollector built from a Spec; executes ops; logs what each collect saw"""
 
     def __init__(self, spec, model):
         self.spec, self.model = spec, model
         base = type("Base", (mesa.Agent,), {})
+        # attribute v1 is a class-level descriptor (a property backed by the instance dict under another key): it
+        # reads, writes, deletes and goes missing exactly like a plain attribute, but it is not in vars(agent) — a
+        # reporter must evaluate it the way direct attribute access does
+        base.v1 = _Backed("v1")
         self.classes = []
         for i, p in enumerate(spec.parents):
             self.classes.append(type(f"C{i}", (base if p is None else self.classes[p],), {}))
